@@ -185,6 +185,13 @@ def check_discipline(s):
         base = s["base"]
         off = int.from_bytes(base[96:100], "little")
         j = next((k for k in range(len(tr)) if tr[k][0] < off), None)
+        # append_trace of Proofs/CrashAppendProofs.v: the data writes start where the old points end (over the old EVLRs) and are contiguous
+        cnt0 = int.from_bytes(base[247:255], "little") if base[25] >= 4 else int.from_bytes(base[107:111], "little")
+        pos = off + cnt0 * int.from_bytes(base[105:107], "little")
+        for p_, b_ in tr[:len(tr) if j is None else j]:
+            if p_ != pos:
+                return f"an append session writes at {p_}, expected the end of the stored data at {pos}"
+            pos += len(b_)
         if j is not None:
             if tr[j][0] != 0:
                 return "the header area is touched not starting at 0"
